@@ -344,6 +344,12 @@ where
     where
         Sq: Data<Elem = Sd::Elem>,
     {
+        assert!(
+            buffer.shape()[1..] == self.data.shape()[1..],
+            "buffer has the wrong shape, expected trailing axes: {:?}, got: {:?}",
+            &self.data.shape()[1..],
+            &buffer.shape()[1..]
+        );
         Zip::from(xs)
             .and(buffer.axis_iter_mut(Axis(0)))
             .fold_while(Ok(()), |_, &x, buf| {
